@@ -922,3 +922,255 @@ func (c *Ctx) ruleKindLabels() {
 		c.rep.bad("R-TBL", "(*nodeConfig).kind", "KINDS: every kind has its label", pos, strings.Join(uniq(problems), "; "))
 	}
 }
+
+// ruleNumberStringers: the text of a number comes from strconv and from
+// nowhere else - no hand-made digits, no fast path for "small" values.
+func (c *Ctx) ruleNumberStringers() {
+	for _, name := range []string{"intStringer", "uintStringer", "floatStringer", "complexStringer"} {
+		fn := c.anchor("R-STR", name)
+		if fn == nil {
+			continue
+		}
+		ok := c.returnsOnlyFrom(fn, func(v ssa.Value) bool {
+			call, isCall := v.(*ssa.Call)
+			if !isCall {
+				return false
+			}
+			cn := c.calleeName(&call.Call)
+			return strings.HasPrefix(cn, "strconv.Format") || cn == "strconv.Itoa"
+		})
+		if ok {
+			c.rep.ok("R-STR", name, "NUMBER: text from strconv only", c.p.pos(fn.Pos()), "every result is a strconv.Format* result (or the empty default)")
+		} else {
+			c.rep.bad("R-STR", name, "NUMBER: text from strconv only", c.p.pos(fn.Pos()), "a result is not produced by strconv.Format*: hand-made digits or a shortcut for some values")
+		}
+	}
+	// the condenser returns what its rune loop built, on every path
+	if fn := c.anchor("R-STR", "condenseWHSP"); fn != nil {
+		ok := c.returnsOnlyFrom(fn, func(v ssa.Value) bool {
+			call, isCall := v.(*ssa.Call)
+			return isCall && c.calleeName(&call.Call) == "(*strings.Builder).String"
+		})
+		if ok {
+			c.rep.ok("R-STR", "condenseWHSP", "NOBYPASS: result of the rune loop", c.p.pos(fn.Pos()), "every result is the builder's text (or empty)")
+		} else {
+			c.rep.bad("R-STR", "condenseWHSP", "NOBYPASS: result of the rune loop", c.p.pos(fn.Pos()), "a path returns text that did not pass the rune loop (tabs and blanks are not condensed there)")
+		}
+	}
+}
+
+// ttPrimitiveTests: isStringPrimitive / isBoolPrimitive answer the type test
+// and nothing else (the empty string is a string).
+func (c *Ctx) ttPrimitiveTests() {
+	for _, pt := range []struct {
+		fn  string
+		typ types.Type
+	}{{"isStringPrimitive", types.Typ[types.String]}, {"isBoolPrimitive", types.Typ[types.Bool]}} {
+		pt := pt
+		c.runTable(ttTable{
+			rule: "R-TT", fn: pt.fn,
+			atoms: []ttAtom{{"is " + pt.typ.String(), func(fa *FnAnalysis, st *State) (bool, bool) {
+				tt := c.eng.tt
+				return fa.knownTerm(st, aTR, tt.mk(Term{K: "TAOK", S: typeStr(pt.typ), Typ: pt.typ, A: c.param(fa, 0)}))
+			}}},
+			expect:  func(v map[string]bool) string { return fmt.Sprint(v["is "+pt.typ.String()]) },
+			outcome: c.boolOutcome(0),
+		})
+	}
+}
+
+// ruleNilPtrExact: isNilPtr says yes only about pointers (a nil map, slice or
+// func used as an Operator is a usable value whose methods can be called).
+func (c *Ctx) ruleNilPtrExact() {
+	fn := c.anchor("R-CONDSTORE", "isNilPtr")
+	if fn == nil {
+		return
+	}
+	fa := c.eng.analyze(fn, nil)
+	tt := c.eng.tt
+	vo := tt.mk(Term{K: "VALOF", A: c.param(fa, 0)})
+	isnil := tt.mk(Term{K: "ISNIL", A: vo})
+	kindPtr := tt.mk(Term{K: "B", S: "==", A: tt.mk(Term{K: "KIND", A: vo}), B: c.intConst(kPtr)})
+	var problems []string
+	for _, rs := range fa.rets {
+		if rs.st.dead {
+			continue
+		}
+		rt := fa.term(rs.st, rs.ret.Results[0])
+		if v, known := fa.knownTerm(rs.st, aTR, rt); known && !v {
+			continue
+		}
+		// may answer true: the value must be known to be of pointer kind
+		if v, known := fa.knownTerm(rs.st, aTR, kindPtr); known && v {
+			if rt == isnil {
+				continue
+			}
+			if nv, nk := fa.knownTerm(rs.st, aTR, isnil); nk && nv {
+				continue
+			}
+		}
+		problems = append(problems, c.p.instrPos(rs.ret)+": may answer true for a value that is not known to be a nil pointer (other nil-able kinds are usable values)")
+	}
+	if len(problems) == 0 {
+		c.rep.ok("R-CONDSTORE", "isNilPtr", "yes only for nil pointers", c.p.pos(fn.Pos()), "true only where Kind()==Ptr and IsNil()")
+	} else {
+		sort.Strings(problems)
+		c.rep.bad("R-CONDSTORE", "isNilPtr", "yes only for nil pointers", c.p.pos(fn.Pos()), strings.Join(uniq(problems), "; "))
+	}
+}
+
+// ruleFreshLogSystem: every Stack/Condition gets a log system of its own.
+func (c *Ctx) ruleFreshLogSystem() {
+	fn := c.anchor("R-PAIR", "newLogSystem")
+	if fn == nil {
+		return
+	}
+	ok := c.returnsOnlyFrom(fn, func(v ssa.Value) bool {
+		a, isA := v.(*ssa.Alloc)
+		return isA && a.Heap
+	})
+	if ok {
+		c.rep.ok("R-PAIR", "newLogSystem", "fresh per instance", c.p.pos(fn.Pos()), "every result is allocated in the call: no two instances share their log levels")
+	} else {
+		c.rep.bad("R-PAIR", "newLogSystem", "fresh per instance", c.p.pos(fn.Pos()), "a result is not a fresh allocation (a shared log system makes SetLogLevel on one instance change LogLevels() of another)")
+	}
+}
+
+// ruleConvPure: the converters and type tests keep no state - no memo or cache
+// keyed by type that one value could poison for the next.
+func (c *Ctx) ruleConvPure() {
+	for _, name := range []string{"stackTypeAliasConverter", "conditionTypeAliasConverter", "derefPtr", "isStackKind", "isNilPtr", "getStringer"} {
+		fn := c.anchor("R-CONV", name)
+		if fn == nil {
+			continue
+		}
+		var ws []string
+		for _, g := range c.reach(fn) {
+			if !c.p.inPkg(g) {
+				continue
+			}
+			for _, w := range c.eff.writesOf(g) {
+				if w.Root.Kind == 'g' {
+					ws = append(ws, w.Loc+"@"+w.Root.String()+" in "+relName(g))
+				}
+			}
+		}
+		sort.Strings(ws)
+		ws = uniq(ws)
+		if len(ws) == 0 {
+			c.rep.ok("R-CONV", name, "keeps no state", c.p.pos(fn.Pos()), "nothing reachable writes package-level state")
+		} else {
+			if len(ws) > 3 {
+				ws = ws[:3]
+			}
+			c.rep.bad("R-CONV", name, "keeps no state", c.p.pos(fn.Pos()), "package-level state is written (a memo keyed by type can be poisoned by one value for the next): "+strings.Join(ws, "; "))
+		}
+	}
+}
+
+// ruleIDVerbatim: ID and category are stored as given.  The string that
+// reaches (*nodeConfig).setID / setCat is, on every path, the caller's own
+// parameter - or, for the two magic ID words, the generated value - and the
+// record stores exactly what it is handed (no case folding, no trimming).
+func (c *Ctx) ruleIDVerbatim() {
+	generated := map[string]bool{"randomID": true, "ptrString": true, "Condition.Addr": true, "Stack.Addr": true}
+	var asGiven func(fn *ssa.Function, v ssa.Value, seen map[ssa.Value]bool) bool
+	asGiven = func(fn *ssa.Function, v ssa.Value, seen map[ssa.Value]bool) bool {
+		if seen[v] {
+			return true
+		}
+		seen[v] = true
+		switch x := v.(type) {
+		case *ssa.Parameter:
+			return x.Parent() == fn
+		case *ssa.Phi:
+			for _, e := range x.Edges {
+				if !asGiven(fn, e, seen) {
+					return false
+				}
+			}
+			return true
+		case *ssa.Call:
+			return generated[c.calleeName(&x.Call)]
+		}
+		return false
+	}
+	for _, field := range []string{"id", "cat"} {
+		sink := "(*nodeConfig).setID"
+		if field == "cat" {
+			sink = "(*nodeConfig).setCat"
+		}
+		fn := c.anchor("R-PAIR", sink)
+		if fn == nil {
+			continue
+		}
+		idx := c.fieldIndex("nodeConfig", field)
+		okStore, n := true, 0
+		for _, b := range fn.Blocks {
+			for _, in := range b.Instrs {
+				if st, ok := in.(*ssa.Store); ok {
+					if fa, ok := st.Addr.(*ssa.FieldAddr); ok && fa.Field == idx && c.isNamed(fa.X.Type(), "nodeConfig") {
+						n++
+						if p, isP := st.Val.(*ssa.Parameter); !isP || p.Parent() != fn {
+							okStore = false
+						}
+					}
+				}
+			}
+		}
+		if okStore && n > 0 {
+			c.rep.ok("R-PAIR", sink, "stored as given", c.p.pos(fn.Pos()), "the parameter itself is stored")
+		} else {
+			c.rep.bad("R-PAIR", sink, "stored as given", c.p.pos(fn.Pos()), "the value stored is not the parameter itself")
+		}
+		// every caller hands over its own parameter (or a generated ID)
+		for _, g := range c.p.Funcs {
+			for _, call := range c.findCalls(g, sink) {
+				arg := call.Call.Args[len(call.Call.Args)-1]
+				if asGiven(g, arg, map[ssa.Value]bool{}) {
+					c.rep.ok("R-PAIR", relName(g), "forwards the "+field+" as given", c.p.instrPos(call), "the caller's own parameter (or a generated ID) reaches the record")
+				} else {
+					c.rep.bad("R-PAIR", relName(g), "forwards the "+field+" as given", c.p.instrPos(call), "the string handed to "+sink+" is computed from the argument (folded, trimmed, ...): the getter would not return what was set")
+				}
+			}
+		}
+	}
+}
+
+// ruleDefragKeys: verifyImplode counts positions through a map keyed by the
+// decimal text of the position; the keys are distinct only if that text is
+// produced by strconv itself (a hand-written formatter that keeps two digits
+// makes positions collide from 100 on and moves the truncation point).
+func (c *Ctx) ruleDefragKeys() {
+	fn := c.anchor("R-DEFRAG", "stack.verifyImplode")
+	if fn == nil {
+		return
+	}
+	n := 0
+	var problems []string
+	for _, b := range fn.Blocks {
+		for _, in := range b.Instrs {
+			call, ok := in.(*ssa.Call)
+			if !ok || len(call.Call.Args) != 1 {
+				continue
+			}
+			at, ok1 := call.Call.Args[0].Type().Underlying().(*types.Basic)
+			rt, ok2 := call.Type().Underlying().(*types.Basic)
+			if !ok1 || !ok2 || at.Info()&types.IsInteger == 0 || rt.Kind() != types.String {
+				continue
+			}
+			n++
+			if cn := c.calleeName(&call.Call); cn != "strconv.Itoa" {
+				problems = append(problems, c.p.instrPos(call)+": a position is turned into its key by "+cn+", not by strconv.Itoa (keys must be distinct for distinct positions)")
+			}
+		}
+	}
+	if n == 0 {
+		problems = append(problems, "no position-to-text conversion found (anchor)")
+	}
+	if len(problems) == 0 {
+		c.rep.ok("R-DEFRAG", "stack.verifyImplode", "position keys are decimal texts", c.p.pos(fn.Pos()), fmt.Sprintf("%d conversion(s), all strconv.Itoa", n))
+	} else {
+		c.rep.bad("R-DEFRAG", "stack.verifyImplode", "position keys are decimal texts", c.p.pos(fn.Pos()), strings.Join(problems, "; "))
+	}
+}
